@@ -29,4 +29,11 @@ run C13 src/clikit/ui/help/command_help.py 's/        config = command.config\n/
 run C14 src/clikit/ui/components/table.py 's/\bscreen_width = io.terminal_dimensions.width/screen_width = int(io.terminal_dimensions.width)/'
 run C17 src/clikit/ui/style/border_style.py 's/            style = cls()/            style = cls()  # prototype/'
 run C05 src/clikit/args/default_args_parser.py 's/\bmissing_arguments\b/absent/g'
-run C09 src/clikit/config/default_application_config.py 's/\binput_stream\b/in_stream/g'
+run C09 src/clikit/config/default_application_config.py '/^from\|^import/!s/\binput_stream\b/in_stream/g'
+# added with the contracts of the last third of the build
+run C19 src/clikit/ui/components/progress_indicator.py 's/^        self\._started = True$/        self._started = bool(1)/'
+run C12 src/clikit/api/event/event_dispatcher.py 's/^        listeners = self\.get_listeners(event_name)$/        listeners = self.get_listeners(event_name)  # the ordered view/'
+run C11 src/clikit/api/io/output.py 's/^        self\._quiet = False$/        self._quiet = bool(0)/'
+run C20 src/clikit/ui/components/exception_trace.py 's/^            # The source cannot be tokenized (it changed on disk after it was$/            # Fallback. The source cannot be tokenized (it changed on disk after it was/'
+run C02 src/clikit/args/default_args_parser.py 's/^        name = token\[2:\]$/        name = token[2:]  # without the two dashes/'
+run C17 src/clikit/console_application.py 's/^            command = resolved_command.command$/            command = resolved_command.command  # selected/'
